@@ -11,6 +11,9 @@ mod chainsys;
 mod c07_c08_c18;
 mod nodesys;
 mod c05;
+mod wire;
+mod c09;
+mod c11;
 
 use common::Tier;
 
@@ -35,6 +38,8 @@ fn main() {
         "C03" => c03_c04_c06::run_c03(tier),
         "C04" => c03_c04_c06::run_c04(tier),
         "C06" => c03_c04_c06::run_c06(tier),
+        "C09" => c09::run(tier),
+        "C11" => c11::run(tier),
         "C15" => c15::run(tier),
         "C05" => c05::run(tier),
         "C07" => c07_c08_c18::run_c07(tier),
